@@ -319,13 +319,20 @@ def with_prime(rng):
     shared = rng.random() < 0.5
     pages = [Page(b"/dir/index.html", r1, rule_path=b"/dir/*" if shared else b"/dir/index.html"),
              Page(b"/p.html", r2),
-             Page(b"/dir/x", r1 if shared else r3, rule_path=None if shared else b"/dir/x*")]
+             Page(b"/dir/x", r1 if shared else r3, rule_path=None if shared else b"/dir/x")]
+    targets = [[b"/dir/", b"/dir/index.html", b"/dir/index."], [b"/p.", b"/p.html"], [b"/dir/x"]]
+    if not shared:
+        # a path that only *starts* like one with an exact rule set has none (or the one of a pattern)
+        pat = rng.random() < 0.5
+        pages.append(Page(b"/dir/xy", gen_rules(rng, 1) if pat else [], rule_path=b"/dir/xy*" if pat else None))
+        targets.append([b"/dir/xy"])
     if rng.random() < 0.4:      # a longer pattern and an exact path win over "/dir/*"
         pages.append(Page(b"/dir/sub/y", r3, rule_path=rng.choice([b"/dir/sub/*", b"/dir/sub/y"])))
+        targets.append([b"/dir/sub/y"])
     cfg = config(pages, default_ext=rng.random() < 0.8)
     pool = []
-    for pg, targets in zip(pages, ([b"/dir/", b"/dir/index.html", b"/dir/index."], [b"/p.", b"/p.html"], [b"/dir/x"], [b"/dir/sub/y"])):
-        for t in targets:
+    for pg, ts in zip(pages, targets):
+        for t in ts:
             pool += request_set(rng, t, pg.rules, 2, methods=(b"GET", b"GET", b"HEAD"), p_query=0.0)
     ops = [rng.choice(pool) for _ in range(rng.randrange(8, 20))]
     if rng.random() < 0.3:
@@ -770,7 +777,7 @@ def _history_oracle(c, out, wire_):
         # -- who computed it
         t = cf.own(path, hdrs)
         gh = method in (b"GET", b"HEAD")
-        expect_calls, expect_304 = 1, False
+        expect_calls = 1
         if gh and cf.cache:
             kpq, kp = ("pq", path, q), ("p", path)
             key = kpq if kpq in store else kp if kp in store else None
@@ -778,9 +785,16 @@ def _history_oracle(c, out, wire_):
                 fresh = _ims_fresh(hdrs) if cf.ims else False
                 if fresh is None:
                     return None
-                if fresh:
-                    expect_calls, expect_304 = 0, True
-                elif t in store[key]:
+                # a date that is fresh for the entry: "not modified" is an answer (whether it is the right one is C04's
+                # subject; that the code gives it without looking at the variants is the model's) - computed by nobody,
+                # nothing stored.  (send() cuts a requested range out of the empty body of the 304: always the 416 page.)
+                if fresh and status == 304:
+                    if len(log) != 0:
+                        return where + "the handler was invoked for a request that was answered 304"
+                    continue
+                if fresh and wire_ and rg is not None and status == 416 and len(log) == 0:
+                    continue
+                if t in store[key]:
                     expect_calls = 0
                 else:
                     store[key].add(t)
@@ -791,12 +805,6 @@ def _history_oracle(c, out, wire_):
                 return where + "the handler was invoked although a response for the transformed tuple %r is stored" % (t,)
             return where + ("no handler invocation although no response for the transformed tuple %r (query %r) was computed since the last clear"
                             % (t, q))
-        if expect_304:
-            # (send() cuts the range out of the empty body of the 304: that is always the 416 page)
-            want_status = 416 if wire_ and rg is not None else 304
-            if status != want_status:
-                return where + "status %d, expected %d (date fresh for the entry)" % (status, want_status)
-            continue
         # -- what it says
         want = cf.rendering(path, q, hdrs)
         if wire_:
